@@ -9,7 +9,7 @@
     the rounding mode of either operand (float/src/cmp.rs as repaired; the dispatch is regenerated from the source
     into DashuGen.CmpDispatch and proved over the generated definitions in FloatOrdDispatch.v). *)
 From Dashu Require Import Base.Prelude Float.RoundSpec Float.Contract Float.Model Float.ModelProof.
-From Dashu Require Import Float.AddModel Float.DivMulModel Float.FloatOrdProducers2Model.
+From Dashu Require Import Float.AddModel Float.DivMulModel Float.LongModel Float.FloatOrdProducers2Model.
 From Dashu Require Import Float.FloatOrdModel Float.FloatOrdProofs Float.FloatOrdTotal Float.FloatOrdProducers.
 Open Scope Z_scope.
 
